@@ -20,7 +20,9 @@ using vc::g_stats;
 static vc::Args A;
 
 static uint64_t g_w = 0; static int g_on = 0;
-extern "C" void __sanitizer_cov_trace_pc_guard(uint32_t *) { g_w += (uint64_t)g_on; }
+// work spent inside the linear header-table lookups (htp_table_get*, wrapped at link time): the mechanism of known finding D15a, measured rather than guessed
+static uint64_t g_wl = 0; static int g_in_lookup = 0;
+extern "C" void __sanitizer_cov_trace_pc_guard(uint32_t *) { g_w += (uint64_t)g_on; g_wl += (uint64_t)(g_on && g_in_lookup); }
 extern "C" void __sanitizer_cov_trace_pc_guard_init(uint32_t *start, uint32_t *stop) { for (uint32_t *x = start; x < stop; x++) *x = 1; }
 
 // libc routines whose cost depends on a length are outside the instrumented code: they are wrapped at link time and charged
@@ -29,7 +31,11 @@ extern "C" {
 void *__real_memcpy(void *, const void *, size_t); void *__real_memmove(void *, const void *, size_t); void *__real_memset(void *, int, size_t);
 void *__real_memchr(const void *, int, size_t); int __real_memcmp(const void *, const void *, size_t); size_t __real_strlen(const char *);
 void *__real_realloc(void *, size_t); void *__real_calloc(size_t, size_t);
-static inline void charge(size_t n) { if (g_on) g_w += n / 16 + 1; }
+static inline void charge(size_t n) { if (g_on) { g_w += n / 16 + 1; if (g_in_lookup) g_wl += n / 16 + 1; } }
+void *__real_htp_table_get(const void *, const void *); void *__real_htp_table_get_c(const void *, const char *); void *__real_htp_table_get_mem(const void *, const void *, size_t);
+void *__wrap_htp_table_get(const void *t, const void *k) { g_in_lookup++; void *r = __real_htp_table_get(t, k); g_in_lookup--; return r; }
+void *__wrap_htp_table_get_c(const void *t, const char *k) { g_in_lookup++; void *r = __real_htp_table_get_c(t, k); g_in_lookup--; return r; }
+void *__wrap_htp_table_get_mem(const void *t, const void *k, size_t n) { g_in_lookup++; void *r = __real_htp_table_get_mem(t, k, n); g_in_lookup--; return r; }
 void *__wrap_memcpy(void *d, const void *s, size_t n) { charge(n); return __real_memcpy(d, s, n); }
 void *__wrap_memmove(void *d, const void *s, size_t n) { charge(n); return __real_memmove(d, s, n); }
 void *__wrap_memset(void *d, int c, size_t n) { charge(n); return __real_memset(d, c, n); }
@@ -107,6 +113,10 @@ static std::vector<Pattern> patterns() {
     v.push_back({"response_folded_lines_after_line_without_colon", 1, 8, [](size_t k, int p) { return Streams{RQ, RSH + "X-No-Colon-Here\r\n" + rep(" " + nm(p) + "\r\n", k) + "Content-Length: 0\r\n\r\n", 1}; }});
     v.push_back({"response_folded_lines_after_empty_value", 1, 8, [](size_t k, int p) { return Streams{RQ, RSH + "X-A:\r\n" + rep("\t" + nm(p) + "\r\n", k) + "Content-Length: 0\r\n\r\n", 1}; }});
     v.push_back({"response_transfer_encoding_tokens", 0, 1, [](size_t k, int p) { return Streams{RQ, RSH + "Transfer-Encoding: " + rep(p ? "x, " : ",", k) + "chunked\r\n\r\n1\r\na\r\n0\r\n\r\n", 1}; }});
+    // NUL bytes inside interpreted response fields (the "chunked" search skips NULs: each skipped byte must cost O(1), wherever the run of NULs stands)
+    v.push_back({"response_transfer_encoding_nul_bytes", 0, 3, [](size_t k, int p) { std::string z(k, '\0'); std::string val = p == 0 ? "x" + z : p == 1 ? z + "chunked" : p == 2 ? "chun" + z + "ked" : "x" + z + "chunked"; return Streams{RQ, RSH + "Transfer-Encoding: " + val + "\r\n\r\n1\r\na\r\n0\r\n\r\n", 1}; }});
+    v.push_back({"response_header_value_nul_bytes", 0, 2, [](size_t k, int p) { std::string z(k, '\0'); return Streams{RQ, RSH + (p == 0 ? "X-A: v" + z : p == 1 ? "Content-Encoding: g" + z + "zip" : "Content-Type: text/" + z + "html") + "\r\nContent-Length: 0\r\n\r\n", 1}; }});
+    v.push_back({"request_transfer_encoding_nul_bytes", 0, 1, [](size_t k, int p) { std::string z(k, '\0'); return Streams{"POST / HTTP/1.1\r\nHost: h\r\nTransfer-Encoding: " + (p ? "x" + z + "chunked" : "chunked" + z) + "\r\n\r\n1\r\na\r\n0\r\n\r\n", "", 0}; }});
     v.push_back({"response_content_type_parameters", 0, 0, [](size_t k, int) { return Streams{RQ, RSH + "Content-Type: text/html" + rep("; a=b", k) + "\r\nContent-Length: 0\r\n\r\n", 1}; }});
     v.push_back({"request_folded_lines_after_line_without_colon", 1, 8, [](size_t k, int p) { return Streams{RQH + "X-No-Colon-Here\r\n" + rep(" " + nm(p) + "\r\n", k) + "\r\n", "", 0}; }});
     v.push_back({"request_folded_lines_after_empty_value", 1, 8, [](size_t k, int p) { return Streams{RQH + "X-A:\r\n" + rep("\t" + nm(p) + "\r\n", k) + "\r\n", "", 0}; }});
@@ -129,13 +139,13 @@ static std::vector<Pattern> patterns() {
     return v;
 }
 
-struct Meas { uint64_t work = 0; size_t len = 0; double worst_call = 0; int error_calls = 0; size_t max_hdr = 0; };
+struct Meas { uint64_t lookup = 0; uint64_t work = 0; size_t len = 0; double worst_call = 0; int error_calls = 0; size_t max_hdr = 0; };
 static Meas measure(const Streams &s, int pers, int delivery) {
     vdrv::Config c; c.personality = pers; vdrv::Plan p; vdrv::Options o; o.dump = false; o.keep_data = false; o.keep_body = false; o.monitors = false;
     vdrv::Session ss(c, p, o); Meas m; m.len = s.rq.size() + s.rs.size();
     auto feed = [&](const std::string &w, bool req, bool pumped) {
         size_t step = !pumped ? w.size() : delivery == 0 ? w.size() : delivery == 1 ? 1 : delivery == 2 ? 7 : 1460; if (step == 0) return;
-        for (size_t off = 0; off < w.size(); off += step) { std::string piece = w.substr(off, step); uint64_t w0 = g_w; g_on = 1; const vdrv::Call &cl = req ? ss.req(piece) : ss.res(piece); g_on = 0; uint64_t dw = g_w - w0; m.work += dw;
+        for (size_t off = 0; off < w.size(); off += step) { std::string piece = w.substr(off, step); uint64_t w0 = g_w, l0 = g_wl; g_on = 1; const vdrv::Call &cl = req ? ss.req(piece) : ss.res(piece); g_on = 0; uint64_t dw = g_w - w0; m.work += dw; m.lookup += g_wl - l0;
             double per = (double)dw / (double)(piece.size() + (req ? cl.in_buf : cl.out_buf) + 1); if (per > m.worst_call) m.worst_call = per; if (cl.rc == HTP_STREAM_ERROR) m.error_calls++; if (cl.rc == HTP_STREAM_ERROR || cl.rc == HTP_STREAM_STOP) break; }
     };
     if (s.carry == 0) { feed(s.rq, true, true); feed(s.rs, false, false); } else { feed(s.rq, true, false); feed(s.rs, false, true); }
@@ -147,12 +157,12 @@ static Meas measure(const Streams &s, int pers, int delivery) {
     return m;
 }
 
-struct Verdict { size_t max_hdr = 0, k_top = 0; bool by_increments = false; bool superlinear = false; std::string table; double ratio_last = 0, ratio_prev = 0; uint64_t w_top = 0, w_bottom = 0; double worst_call = 0; };
+struct Verdict { uint64_t lookup_top = 0; size_t max_hdr = 0, k_top = 0; bool by_increments = false; bool superlinear = false; std::string table; double ratio_last = 0, ratio_prev = 0; uint64_t w_top = 0, w_bottom = 0; double worst_call = 0; };
 static Verdict ladder_fn(const std::function<Streams(size_t)> &build, int pers, int delivery, int rungs, size_t k0);
 static Verdict ladder(const Pattern &pt, int param, int pers, int delivery, int rungs) { return ladder_fn([&](size_t k) { return pt.build(k, param); }, pers, delivery, rungs, 64); }
 static Verdict ladder_fn(const std::function<Streams(size_t)> &build, int pers, int delivery, int rungs, size_t k0) {
     Verdict v; std::vector<uint64_t> W; std::vector<size_t> L; size_t k = k0;
-    for (int r = 0; r < rungs; r++, k *= 2) { Meas m = measure(build(k), pers, delivery); v.max_hdr = std::max(v.max_hdr, m.max_hdr); v.k_top = k; W.push_back(m.work); L.push_back(m.len); if (m.worst_call > v.worst_call) v.worst_call = m.worst_call; }
+    for (int r = 0; r < rungs; r++, k *= 2) { Meas m = measure(build(k), pers, delivery); v.max_hdr = std::max(v.max_hdr, m.max_hdr); v.k_top = k; v.lookup_top = m.lookup; W.push_back(m.work); L.push_back(m.len); if (m.worst_call > v.worst_call) v.worst_call = m.worst_call; }
     std::vector<double> mg; for (size_t i = 1; i < W.size(); i++) mg.push_back(L[i] > L[i - 1] ? ((double)W[i] - (double)W[i - 1]) / (double)(L[i] - L[i - 1]) : 0);
     char b[160]; k = k0; for (size_t i = 0; i < W.size(); i++, k *= 2) { snprintf(b, sizeof b, "k=%zu L=%zu W=%llu%s", k, L[i], (unsigned long long)W[i], i ? "" : "\n"); v.table += b; if (i) { snprintf(b, sizeof b, " marginal=%.2f blocks/byte\n", mg[i - 1]); v.table += b; } }
     size_t n = mg.size(); if (n >= 3 && mg[n - 2] > 0.5 && mg[n - 3] > 0.5) { v.ratio_last = mg[n - 1] / mg[n - 2]; v.ratio_prev = mg[n - 2] / mg[n - 3]; v.superlinear = v.ratio_last >= 1.6 && v.ratio_prev >= 1.6; }
@@ -237,7 +247,8 @@ static Streams gbuild(const GSeed &g, const GSpec &sp, size_t k) {
 static std::string gcase_text(const GSpec &sp, int pers, int delivery, int rungs, size_t k0) { char b[200]; snprintf(b, sizeof b, "c08g %d %d %d %d %zu %zu %d %d %d %d %zu\n", sp.seed, sp.side, sp.seg, sp.part, sp.i, sp.j, sp.ctr, pers, delivery, rungs, k0); return b; }
 static std::string printable(const std::string &s) { std::string o; char b[8]; for (unsigned char c : s) { if (c == '\r') o += "\\r"; else if (c == '\n') o += "\\n"; else if (c == '\t') o += "\\t"; else if (c < 32 || c > 126) { snprintf(b, sizeof b, "\\x%02x", c); o += b; } else o += (char)c; } return o; }
 // the class of a generic failure: a header table that really grew to ~k entries means k distinct field names (known finding D15a's mechanism)
-static std::string gsig(const Verdict &v) { return std::string("C08:superlinear:generic_pump") + (v.max_hdr >= v.k_top / 2 ? "_header_table_grows_distinct_names" : ""); }
+// (a table may have been cleared again by the time it is looked at - an interim 100 response drops its fields - so the share of the work spent inside the lookups decides as well)
+static std::string gsig(const Verdict &v) { return std::string("C08:superlinear:generic_pump") + ((v.max_hdr >= v.k_top / 2 || v.lookup_top * 2 >= v.w_top) ? "_header_table_grows_distinct_names" : ""); }
 static void campaign_generic() {
     static std::vector<GSeed> G = gseeds();
     int cases = A.thorough() ? 1200 : 400;
